@@ -56,7 +56,7 @@ def make_jail(j):
 
 def name_alphabet(j):
     jb = os.fsencode(j)
-    return [b"a", b".", b"..", b"A", b"a/b", b"../outside/s1", jb + b"/outside/s1", b"a\x00b", b"..a", b"...", b"../outside/pwn", b"/"]
+    return [b"a", b".", b"..", b"A", b"a/b", b"../outside/s1", jb + b"/outside/s1", b"a\x00b", b"..a", b"...", b"../outside/pwn", b"/", b"y", b"z"]
 
 
 def kind_alphabet(j):
@@ -161,7 +161,7 @@ def evaluate(case):
 
 def gen_cases(tier):
     quick = tier == "quick"
-    nn = 12                     # names
+    nn = 14                     # names
     nk = 4 + 7                  # kinds
     optsets = OPTSETS_Q if quick else OPTSETS_T
     cases = []
@@ -203,6 +203,13 @@ def gen_cases(tier):
                 add(list(order), opts=optsets[:2])
             for order in itertools.permutations([(n_a, k_sl, None), (n_b, 1, None), (n_a, 1, None)]):
                 add(list(order), opts=optsets[:1])
+    # four entries, stored in every order: a repeated name (symlink + directory) and two other names that sort before / after it
+    # (a sort that leaves part of the list unsorted, or a duplicate check that only looks at some neighbours, is fooled by some of the 24 orders)
+    for k_sl in ((4, 5, 9) if quick else range(4, nk)):
+        for others in (((12, 0), (13, 0)), ((3, 0), (13, 0)), ((9, 0), (3, 0))):
+            for order in itertools.permutations([(0, k_sl, None), (0, 1, None), (others[0][0], others[0][1], None), (others[1][0], others[1][1], None)]):
+                add(list(order), opts=optsets[:1])
+                add(list(order), nested=True, opts=optsets[:1])      # nested: the directory holds exactly these four entries
     # unpack of a sub path
     for ni in (0, 2, 6):
         for ki in (0, 1, 4, 5):
